@@ -392,7 +392,7 @@ class Interp:
 
     def store_attr(self, base: Term, attr: str, v: Term, st: State, ctx: Ctx, node: ast.AST) -> None:
         desc = self.describe(base, st)
-        st.events.append(Event("store", f"{desc}.{attr}", (v,), (), ctx.loc(node), ctx.fi.key if ctx.fi else "", pc_len=len(st.pc)))
+        st.events.append(Event("store", f"{desc}.{attr}", (v,), (), ctx.loc(node), ctx.fi.key if ctx.fi else "", result=base, pc_len=len(st.pc)))
         if base[0] == "obj":
             st.heap[base[1]].fields[attr] = v
             return
@@ -400,7 +400,7 @@ class Interp:
 
     def store_item(self, base: Term, idx: Term, v: Term, st: State, ctx: Ctx, node: ast.AST) -> None:
         desc = self.describe(base, st)
-        st.events.append(Event("storeitem", desc, (idx, v), (), ctx.loc(node), ctx.fi.key if ctx.fi else "", pc_len=len(st.pc)))
+        st.events.append(Event("storeitem", desc, (idx, v), (), ctx.loc(node), ctx.fi.key if ctx.fi else "", result=base, pc_len=len(st.pc)))
         if base[0] == "obj":
             ho = st.heap[base[1]]
             if ho.kind == "dict":
@@ -505,17 +505,33 @@ class Interp:
             for k in range(self.unroll + 1):
                 nxt = []
                 for s1 in live:
-                    # exit after k iterations
-                    se = s1.fork()
-                    se.pc.append(("itercount", itv, k, "exact" if k < self.unroll else "atleast"))
-                    out.extend(self.exec_block(node.orelse, se, ctx) if node.orelse else [(se, None)])
-                    if k == self.unroll:
+                    # what earlier loops over the same iterable on this path established about its length
+                    lb, exact = 0, None
+                    for g in s1.pc:
+                        if isinstance(g, tuple) and len(g) >= 3 and g[1:2] == (itv,):
+                            if g[0] == "iterge":
+                                lb = max(lb, g[2])
+                            elif g[0] == "itercount" and g[3] == "exact":
+                                exact = g[2]
+                            elif g[0] == "itercount" and g[3] == "atleast":
+                                lb = max(lb, g[2])
+                    can_exit = (exact is None or exact == k or (k == self.unroll and exact >= k)) and (k >= min(lb, self.unroll))
+                    if can_exit:
+                        # exit after k iterations
+                        se = s1.fork()
+                        se.pc.append(("itercount", itv, k, "exact" if k < self.unroll else "atleast"))
+                        out.extend(self.exec_block(node.orelse, se, ctx) if node.orelse else [(se, None)])
+                    if k == self.unroll or (exact is not None and exact <= k):
                         continue
+                    s1.pc.append(("iterge", itv, k + 1))
                     elem = ("sym", f"{base}[{k}]", ("elemof", itv))
                     if itv[0] == "chunks":
                         elem = T.slice_seq(itv[1], k * itv[2], (k + 1) * itv[2])
                     elif itv[0] == "sym" and isinstance(itv[2], tuple) and itv[2] and itv[2][0] in ("list", "set"):
-                        elem = self.materialise(("sym", f"{base}[{k}]", itv[2][1]), s1)
+                        et = itv[2][1]
+                        if len(itv[2]) > 2 and itv[2][2] == "distinct":
+                            et = ("distinct", et, itv[1])
+                        elem = self.materialise(("sym", f"{base}[{k}]", et), s1)
                     self.assign(node.target, elem, s1, ctx)
                     s1.events.append(Event("iter", base, (c(k),), (), ctx.loc(node), ctx.fi.key if ctx.fi else "", pc_len=len(s1.pc)))
                     for s2, sig2 in self.exec_block(node.body, s1, ctx):
@@ -1321,6 +1337,8 @@ class Interp:
             return c(True)
         if t == "lookup" and all(x[0] == "enum" for _, x in v[1]):
             return c(True)
+        if t == "sym" and isinstance(v[2], tuple) and v[2] and v[2][0] == "extobj":
+            return c(True)  # library objects (transports, streams) define no __bool__/__len__
         return ("truthy", v)
 
 
@@ -1479,6 +1497,10 @@ def fold_cmp(op: str, a: Term, b: Term) -> Optional[bool]:
             return r if op == "==" else not r
         if a == b and a[0] not in ("app", "top"):
             return op == "=="
+        # elements of a collection declared duplicate-free (an assumption stated by the rule that declares it)
+        if (a[0] == "sym" and b[0] == "sym" and isinstance(a[2], tuple) and isinstance(b[2], tuple) and a[2][:1] == ("distinct",)
+                and a[2] == b[2] and a[1] != b[1]):
+            return op == "!="
         # None vs a definitely non-None value
         if (is_c(a) and a[1] is None and b[0] in ("enum", "obj", "seq")) or (is_c(b) and b[1] is None and a[0] in ("enum", "obj", "seq")):
             return op == "!="
